@@ -5,6 +5,7 @@ import Driver.CmdMatch
 import RQ.ModelF.World
 import RQ.ModelF.WorldApi
 import RQ.ModelF.WorldSignal
+import RQ.ModelF.WorldConv
 /-! Driver command for the free-running world: one request = one whole run (configuration, starting portfolio, the day events and
 the strategy's calls in order); the reply holds, per input, what was published and the state of every account afterwards. -/
 namespace Driver
@@ -124,10 +125,15 @@ def rdWIn2 (t : Toks) : WIn2 × Toks :=
     (.api (.future (pN ins) (pF amount) (pB ib) (parseEffect ef) (if pB hl then some (pF lim) else none)) ids, t)
   | _ => let (i, t) := rdWIn t; (.base i, t)
 
-def runSegs2 (w : World) (ac : ApiCfg) : List WIn2 → World × List String
+def rdWIn3 (t : Toks) : WIn3 × Toks :=
+  match t with
+  | "V" :: pred :: succ :: ratio :: rest => (.convert (pN pred) (pN succ) (pF ratio), rest)
+  | _ => let (i, t) := rdWIn2 t; (.w2 i, t)
+
+def runSegs2 (w : World) (ac : ApiCfg) : List WIn3 → World × List String
   | [] => (w, [])
   | i :: rest =>
-    let (w1, evs) := w.step2 ac i
+    let (w1, evs) := w.step3 ac i
     let seg := joinSp (evs.map shEv ++ ["##", shWorld w1])
     let (w2, segs) := runSegs2 w1 ac rest
     (w2, seg :: segs)
@@ -176,7 +182,7 @@ def cmdWorld (toks : Toks) : Option String :=
       let (auto, t) := tk t
       let (ksh, t) := rdIds t
       let (n, t) := tk t
-      let (ins, _) := rdMany rdWIn2 (pN n) t
+      let (ins, _) := rdMany rdWIn3 (pN n) t
       let w0 : World := { cfg := cfg, pf := { accounts := accts, units := pF units, staticNav := pF stat }, stockIdx := pON si, futIdx := pON fi,
                           openOrders := [], auctionOrders := [], finals := [], turnover := [], commMap := [], mkt := [], today := 0,
                           taxRate := 0.0, phase := .before, log := [] }
